@@ -145,6 +145,12 @@ Contract(
     "inference.inference:Inference.preprocess_belief_base",
     params={"self": SelfT("Inference", partition=PartT), "preprocessing_timeout": TInt},
     returns=TNone,
+    modifies=[
+        "self.epistemic_state.preprocessing_done",
+        "self.epistemic_state.preprocessing_timed_out",
+        "self.epistemic_state.preprocessing_time",
+        "self.epistemic_state.partition",
+    ],
     # refusal (C06, last sentence): a normal return is only possible for a non-empty base that
     # is consistent for the selected mode (or when preprocessing had been done before)
     ensures=lambda c, r: [
@@ -458,4 +464,83 @@ Contract(
     },
     loops={0: LoopSpec("{... for (i, q) in queries.items()}", _dc_inv)},
     properties=["C13", "C14"],
+)
+
+
+# ---------------------------------------------------------------------------
+# InferenceManager.inference: budgets and the result table (C13, C14)
+# ---------------------------------------------------------------------------
+MGR = TObj("InferenceManager", {"epistemic_state": TRec(dict(ES_COMMON, partition=PartT))})
+QueriesObjT = TObj("Queries", {"conditionals": QueriesT, "name": TStr, "signature": TOpaque})
+
+
+def _build_instance(ex, bound):
+    ref = ex.st.alloc({"kind": "obj", "cls": "Inference", "fields": {"epistemic_state": bound["epistemic_state"]}})
+    return VRef(ref, TObj("Inference", {}))
+
+
+def _table_ok(c, df_cols, qs, upto, es_view):
+    """row p carries key, text and answer of the p-th submitted query; every row is flagged or
+    carries the operator's answer; the preprocessing flag is the one set by THIS call"""
+    p = z3.Int("_tb_p")
+    vals = L.values_of(L.Cnd)(qs.keys, qs.val)
+    q = L.LCnd.at(vals, p)
+    pto = es_view.es("preprocessing_timed_out").t
+    body = z3.And(
+        z3.Select(df_cols["index"], p) == LInt.at(qs.keys, p),
+        z3.Select(df_cols["query"], p) == txt(q),
+        z3.Select(df_cols["preprocessing_timed_out"], p) == pto,
+        z3.Or(
+            pto,
+            z3.If(z3.Select(df_cols["inference_timed_out"], p), z3.Select(df_cols["result"], p) == False, z3.Select(df_cols["result"], p) == GI(es_view, q)),
+        ),
+        z3.Implies(pto, z3.Select(df_cols["result"], p) == False),
+    )
+    return Forall([p], [LInt.at(qs.keys, p)], z3.Implies(z3.And(0 <= p, p < upto), body), "table.rows")
+
+
+def _mgr_post(c, r):
+    qs = c.field(c.queries, "conditionals")
+    cols = c._st.obj(r.ref)["cols"]
+    return [_table_ok(c, cols, qs, LInt.len(qs.keys), c)]
+
+
+def _mgr_inv(s, j, pre):
+    qs = s.field(s.queries, "conditionals")
+    cols = s._st.obj(s.df.ref)["cols"]
+    return [_table_ok(s, cols, qs, j, s)]
+
+
+from contracts import c_misc as _cm  # noqa: E402
+
+_cm_ct = __import__("pyvc.contract", fromlist=["get"]).get("inference.inference_manager:create_inference_instance")
+_cm_ct.result_builder = _build_instance
+
+Contract(
+    "inference.inference_manager:InferenceManager.inference",
+    params={
+        "self": MGR,
+        "queries": QueriesObjT,
+        "total_timeout": TInt,
+        "inference_timeout": TInt,
+        "preprocessing_timeout": TInt,
+        "queries_name": TStr,
+        "multi_inference": TBool,
+        "decimals": TInt,
+    },
+    returns=TOpaque,
+    requires=lambda c: [distinct_texts(c.field(c.queries, "conditionals"))],
+    ensures=_mgr_post,
+    raises={
+        "AssertionError": lambda c: z3.And(z3.Not(c.old.es("preprocessing_done").t), z3.Or(_incons(c.old)[1], _incons(c.old)[0])),
+        "Exception": lambda c: z3.BoolVal(True),
+    },
+    fuel=4,
+    shards=4,
+    loops={2: LoopSpec("for (index, query) in enumerate(queries.conditionals.values())", _mgr_inv)},
+    abstractions={
+        "pd.DataFrame({c: pd.Series([], dtype=object) for c in columns})": (lambda s: s._ex.lib.functions["pandas.DataFrame"](s._ex, [], {}, None), "TB-pd: an empty table with the listed columns"),
+    },
+    properties=["C13", "C14"],
+    note="refusal (AssertionError) and 'no correct inference system' (Exception) are the only raises; the table rows are those of Inference.inference",
 )
